@@ -203,11 +203,13 @@ static bool self_containing_node(int i, const Path& p, int j, const Path& sp, ch
 // ---------------------------------------------------------------------------------------------
 // observation
 // ---------------------------------------------------------------------------------------------
-static void put_dbl(double d)
+// signedZero: the value is the stored double of a doubleType Variant - its zero shows its sign (d-0, round 5); a zero
+// converted from another alternative (a string "-0" reads as -0.0) is printed as d0_0, the value model has one zero
+static void put_dbl(double d, bool signedZero = false)
 {
   if(isnan(d)) { printf("dnan"); return; }
   if(isinf(d)) { printf(d > 0 ? "dinf" : "d-inf"); return; }
-  if(d == 0) { printf("d0_0"); return; }
+  if(d == 0) { printf(signedZero && signbit(d) ? "d-0" : "d0_0"); return; }
   int x; double f = frexp(d, &x);
   long long m = (long long)ldexp(f, 53);
   int e = x - 53;
@@ -222,7 +224,7 @@ static void dump(const Variant& v)
   switch(v.getType()) {
   case Variant::nullType: printf("n"); break;
   case Variant::boolType: printf(v.toBool() ? "b1" : "b0"); break;
-  case Variant::doubleType: put_dbl(v.toDouble()); break;
+  case Variant::doubleType: put_dbl(v.toDouble(), true); break;
   case Variant::intType: printf("i%d", v.toInt()); break;
   case Variant::uintType: printf("u%u", v.toUInt()); break;
   case Variant::int64Type: printf("I%lld", (long long)v.toInt64()); break;
@@ -275,7 +277,7 @@ static void coercions(const Variant& v)
   if(cast_ok(v, 1)) printf("%u,", v.toUInt()); else printf("ub,");
   if(cast_ok(v, 2)) printf("%lld,", (long long)v.toInt64()); else printf("ub,");
   if(cast_ok(v, 3)) printf("%llu,", (unsigned long long)v.toUInt64()); else printf("ub,");
-  put_dbl(v.toDouble()); printf(",");
+  put_dbl(v.toDouble(), v.getType() == Variant::doubleType); printf(",");
   put_str(((const Variant&)v).toString());
 }
 
